@@ -86,6 +86,10 @@ class Creation(Engine):
                 for c in chunks:
                     c['gen'] = 'nonneg'
             base.update(kind='chunkiter', chunks=chunks, iterkind=rng.choice(['generator', 'iter_of_list']))
+            if not trail and rng.random() < 0.2:
+                # an iterator of numbers: each one is a chunk of one element
+                base['chunks'] = [{'form': 'npscalar', 'dtype': dtype, 'gen': 'nonneg' if dtarg is not None else 'safe',
+                                   'vseed': rng.getrandbits(32)} for _ in range(rng.choice([1, 2, 4]))]
         elif r < 0.84:
             base.update(kind='darr', data={'gen': valgen, 'rows': rows, 'trail': trail, 'dtype': dtype, 'layout': 'C',
                                            'form': 'ndarray', 'vseed': rng.getrandbits(32)},
@@ -243,8 +247,8 @@ class Creation(Engine):
         if kind == 'chunkiter':
             arrs = [D.build(c)[0] for c in sc['chunks']]
             dtarg = None if sc.get('dtarg') is None else np.dtype(sc['dtarg'])
-            first = np.asarray(arrs[0], dtype=dtarg)
-            ref = np.concatenate([np.asarray(a, dtype=dtarg).astype(first.dtype) for a in arrs]).astype(first.dtype, copy=False)
+            first = np.atleast_1d(np.asarray(arrs[0], dtype=dtarg))
+            ref = np.concatenate([np.atleast_1d(np.asarray(a, dtype=dtarg)).astype(first.dtype) for a in arrs]).astype(first.dtype, copy=False)
             it = (a for a in arrs) if sc['iterkind'] == 'generator' else iter(list(arrs))
             return it, ref
         if kind == 'darr':
